@@ -797,6 +797,10 @@ int xmpp_connect_raw(xmpp_conn_t *conn,
                      xmpp_conn_handler callback,
                      void *userdata)
 {
+    /* don't turn a connection that is in use into a raw one */
+    if (conn->state != XMPP_STATE_DISCONNECTED)
+        return XMPP_EINVOP;
+
     conn->is_raw = 1;
     return xmpp_connect_client(conn, altdomain, altport, callback, userdata);
 }
